@@ -109,7 +109,7 @@ func runC17(r *Run) {
 	r.Assume = []string{"bank keeper MintCoins/BurnCoins are the only ways to change supply", "DecCoins.Sub/Add are exact"}
 	r.rule("C17.R1", "who-may-mint: MintCoins/BurnCoins call sites of the custom modules are reachable only from the exomint epoch hook; the hook mints once, under identifier == params.EpochIdentifier and a non-zero reward and under nothing else, and forwards the same coins", 5)
 	r.rule("C17.R2", "move-all: AllocateTokens sends GetAllBalances(fee collector) to the distribution account unconditionally, before any early exit, and the booked total derives from the same value", 3)
-	r.rule("C17.R3", "booking balance: remainder-accumulator idiom in AllocateTokens and AllocateTokensToStakers; validator split = commission + (tokens - commission); zero-power arm books everything to the community pool", 8)
+	r.rule("C17.R3", "booking balance: remainder-accumulator idiom in AllocateTokens and AllocateTokensToStakers; validator split = commission + (tokens - commission); zero-power arm books everything to the community pool; the staker allocation books on every exit", 9)
 	r.rule("C17.R4", "portions are truncating (MulDecTruncate / QuoTruncate)", 3)
 	r.rule("C17.R5", "the distribution epoch hook is registered before the mint epoch hook", 1)
 	r.rule("C17.R6", "the community tax stays within [0, 1] (outside it the validator share or the remainder is negative and the allocation panics): Params.Validate rejects it, the update message and the genesis state validate their params, and nothing else stores fee-distribution params", 4)
@@ -439,6 +439,34 @@ func runC17(r *Run) {
 			r.check(len(miss) == 0, "C17.R3", "AllocateTokensToValidator|booked-unconditionally", vv.pos(vv.Decl), "a validator's portion is always booked: commission, stakers' share, outstanding rewards", "not unconditional: "+strings.Join(miss, ", ")+" -- the caller still subtracts the portion from the remainder, so it is moved but booked to nobody")
 		}
 		r.check(ok, "C17.R3", "AllocateTokensToStakers|remainder", as.pos(as.Decl), "stakers' share = sum(staker rewards) + remainder -> community pool", strings.Join(probs, "; "))
+		// the function books only at its very end (remainder -> community pool): any other way out leaves the
+		// share it was handed moved but booked nowhere. The one early exit (the opt-in list cannot be read) is a
+		// parse failure of the store's own keys.
+		{
+			var exits []string
+			ast.Inspect(as.Decl.Body, func(n ast.Node) bool {
+				if _, isLit := n.(*ast.FuncLit); isLit {
+					return false
+				}
+				rs, isR := n.(*ast.ReturnStmt)
+				if !isR {
+					return true
+				}
+				audited := false
+				for _, f := range as.FactsAt(rs, false) {
+					if o := as.outcome(f); o != nil && o.Callee.Name() == "GetOptedInAVSForOperator" && !o.Success {
+						audited = true
+					}
+				}
+				// the only other facts allowed at that exit are none: it sits at the top level
+				if audited && as.innermostLoop(rs) == nil {
+					return true
+				}
+				exits = append(exits, as.pos(rs))
+				return true
+			})
+			r.check(len(exits) == 0, "C17.R3", "AllocateTokensToStakers|books-on-every-exit", as.pos(as.Decl), "the staker allocation is left only at its end, after the remainder was booked (apart from the unreadable opt-in list)", "AllocateTokensToStakers returns early at "+strings.Join(exits, ", ")+": the share it was handed has already been taken from the validator-level remainder and is booked to nobody")
+		}
 		// the fractions paid out sum to at most one: what a list entry is paid with (its weight in the map) is
 		// exactly what it added to the total. In the accumulating block: the total grows by w unconditionally;
 		// the entry is appended and its weight set to w only when the key is new, and otherwise the weight
